@@ -102,3 +102,12 @@ Definition corr_session (c : list call * list Z) : bool :=
 (* the events of one is_odf_encrypted call *)
 Definition corr_odf_probe (c : limits * bool * zip_oracle * bool * list event) : bool :=
   let '(L, z, o, m, want) := c in evs_eqb (odf_probe_events L 0%N z o m) want.
+
+(* read_zip_member on a member whose central directory claims `fs` and whose data inflates to `avail`:
+   (fs, avail, implementation's result: -1 = BadZipFile, otherwise the length returned, decompressor output measured) *)
+From S2T Require Import C11.ModelRead.
+Definition corr_read_member (c : Z * Z * Z * Z) : bool :=
+  let '(fs, avail, want, inflated) := c in
+  let x := mk fs fs false in let st := {| s_avail := avail |} in
+  (match read_zip_member x st with RBadCrc => want =? -1 | RBytes n => want =? n end)
+  && (inflated <=? Z.max (read_zip_member_work x st) 0 + MIN_READ_SIZE).
